@@ -56,7 +56,8 @@ static bxdecay0::event random_event(Rng & r, int maxpart, bool hostile)
   for (int i = 0; i < n; i++) {
     bxdecay0::particle p;
     p.set_code(codes[r.below(4)]);
-    p.set_time(hostile ? hostile_double(r, true) : r.uniform());
+    // particle times may be negative (an event re-referenced to one of its later particles with shift_particles_time)
+    p.set_time(hostile ? hostile_double(r, r.below(3) != 0) : r.uniform() - (r.below(4) == 0 ? 0.5 : 0.0));
     if (hostile) p.set_momentum(hostile_double(r, false), hostile_double(r, false), hostile_double(r, false));
     else p.set_momentum(r.uniform() - 0.5, r.uniform() - 0.5, r.uniform() - 0.5);
     e.add_particle(p);
